@@ -30,7 +30,7 @@ func init() {
 		Assumptions: []string{"go/parser, go/format and go/types are the Go oracles; the binary is built from /repo/cmd/plenctag by bin/check and passed in VERIF_PLENCTAG"},
 		Work:        c20Work,
 		Post: func(a *mc.Agg) []string {
-			return needDims(a, "shape:single", "shape:multi", "shape:embedded", "shape:unexported", "shape:blank", "tag:none", "tag:plenc", "tag:malformed", "ctx:generic", "ctx:local", "flags:16", "second-run", "presentation:loose")
+			return needDims(a, "shape:single", "shape:multi", "shape:embedded", "shape:unexported", "shape:blank", "tag:none", "tag:plenc", "tag:malformed", "ctx:generic", "ctx:local", "flags:16", "flags:omitted", "multi-file", "second-run", "presentation:loose")
 		},
 	})
 }
@@ -92,10 +92,49 @@ func c20File(ctx string, fields []string) string {
 // c20Importer type-checks imported standard packages from source (offline, cached per worker).
 var c20Importer = importer.ForCompiler(token.NewFileSet(), "source", nil)
 
-type c20Flags struct{ w, json, sql, private bool }
+// c20Flags is one flag combination. A flag whose bit is set in omit is left off the command line;
+// its field then holds the default the tool documents in its usage text (-w=true -json=false
+// -sql=true -private=true), which is what the oracles expect the tool to apply.
+type c20Flags struct {
+	w, json, sql, private bool
+	omit                  uint8
+}
 
-func (f c20Flags) args(file string) []string {
-	return []string{fmt.Sprintf("-w=%v", f.w), fmt.Sprintf("-json=%v", f.json), fmt.Sprintf("-sql=%v", f.sql), fmt.Sprintf("-private=%v", f.private), file}
+func (f c20Flags) args(files ...string) []string {
+	var a []string
+	for i, s := range []string{fmt.Sprintf("-w=%v", f.w), fmt.Sprintf("-json=%v", f.json), fmt.Sprintf("-sql=%v", f.sql), fmt.Sprintf("-private=%v", f.private)} {
+		if f.omit&(1<<i) == 0 {
+			a = append(a, s)
+		}
+	}
+	return append(a, files...)
+}
+
+func (f c20Flags) String() string {
+	return strings.Join(f.args(), " ")
+}
+
+// c20OmitFlags: every non-empty subset of the four flags omitted (so the defaults apply), the
+// others set to the opposite of their default.
+func c20OmitFlags() []c20Flags {
+	var out []c20Flags
+	for m := uint8(1); m < 16; m++ {
+		f := c20Flags{w: false, json: true, sql: false, private: false, omit: m}
+		if m&1 != 0 {
+			f.w = true
+		}
+		if m&2 != 0 {
+			f.json = false
+		}
+		if m&4 != 0 {
+			f.sql = true
+		}
+		if m&8 != 0 {
+			f.private = true
+		}
+		out = append(out, f)
+	}
+	return out
 }
 
 func c20Work(c *mc.Ctx) {
@@ -114,9 +153,9 @@ func c20Work(c *mc.Ctx) {
 	fields := c20Fields()
 	var allFlags []c20Flags
 	for i := 0; i < 16; i++ {
-		allFlags = append(allFlags, c20Flags{i&1 != 0, i&2 != 0, i&4 != 0, i&8 != 0})
+		allFlags = append(allFlags, c20Flags{i&1 != 0, i&2 != 0, i&4 != 0, i&8 != 0, 0})
 	}
-	fewFlags := []c20Flags{{true, false, true, true}, {false, true, true, true}, {true, true, false, false}, {true, false, false, true}}
+	fewFlags := []c20Flags{{true, false, true, true, 0}, {false, true, true, true, 0}, {true, true, false, false, 0}, {true, false, false, true, 0}}
 	unit := 0
 	run := func(ctx string, fs []c20Field, flags []c20Flags) {
 		unit++
@@ -143,6 +182,15 @@ func c20Work(c *mc.Ctx) {
 		src := c20File(ctx, srcs)
 		for _, fl := range flags {
 			c20One(c, bin, dir, ctx, fs, src, fl)
+		}
+		if len(fs) == 1 && ctx == "pkg" {
+			// flags left off the command line: the documented defaults apply
+			for _, fl := range c20OmitFlags() {
+				c.Dim("flags:omitted")
+				c20One(c, bin, dir, ctx, fs, src, fl)
+			}
+			// several files in one invocation are each treated as when given alone
+			c20Multi(c, bin, dir, src)
 		}
 		// the same file loosely formatted (spaces for tabs, blank lines, trailing padding): gofmt
 		// makes it SHORTER than the input, which matters for the in-place (-w) output path
@@ -359,7 +407,12 @@ func c20One(c *mc.Ctx, bin, dir, ctx string, fs []c20Field, src string, fl c20Fl
 		c.NonTrivial()
 	}
 	if code != 0 {
-		// errors reported: the file must be untouched
+		// errors are REPORTED: something must be said on stderr
+		if strings.TrimSpace(stderr) == "" {
+			c.Violation(sig+"failure-not-reported", fmt.Sprintf("flags %v: exit %d with nothing on stderr", fl, code))
+			return
+		}
+		// the file must be untouched
 		if !bytes.Equal(after, []byte(src)) {
 			c.Violation(sig+"file-modified-despite-error", fmt.Sprintf("flags %v stderr %s", fl, trunc200(stderr)))
 			return
@@ -583,4 +636,59 @@ func c20PlencAccepts(st *ast.StructType) (msg string) {
 		return err.Error()
 	}
 	return ""
+}
+
+// c20Multi: plenctag takes several files. Each file of one invocation must come out exactly as
+// when it is the only argument (differential oracle; the single-file result is judged by c20One).
+func c20Multi(c *mc.Ctx, bin, dir, src string) {
+	other := "package p\n\ntype Other struct {\n\tP int\n\tQ string `json:\"q\" plenc:\"4\"`\n\tR []byte\n}\n"
+	if !c.Begin(fmt.Sprintf(`{"set":"multi-file","source":%q}`, src)) {
+		return
+	}
+	c.Dim("multi-file")
+	c.NonTrivial()
+	fa, fb := filepath.Join(dir, fmt.Sprintf("w%da.go", c.W)), filepath.Join(dir, fmt.Sprintf("w%db.go", c.W))
+	run := func(files ...string) (string, int) {
+		cmd := exec.Command(bin, files...)
+		var se bytes.Buffer
+		cmd.Stderr = &se
+		err := cmd.Run()
+		c.Ops(1)
+		code := 0
+		if ee, ok := err.(*exec.ExitError); ok {
+			code = ee.ExitCode()
+		} else if err != nil {
+			code = -1
+		}
+		return se.String(), code
+	}
+	alone := func(path, text string) (string, int) {
+		os.WriteFile(path, []byte(text), 0o644)
+		_, code := run(path)
+		b, _ := os.ReadFile(path)
+		return string(b), code
+	}
+	wantA, codeA := alone(fa, src)
+	wantB, codeB := alone(fb, other)
+	if codeA != 0 || codeB != 0 {
+		c.Outcome("multi-skipped-error-alone")
+		return // what happens to later files after an error is not specified
+	}
+	for _, order := range [][2]string{{fa, fb}, {fb, fa}} {
+		os.WriteFile(fa, []byte(src), 0o644)
+		os.WriteFile(fb, []byte(other), 0o644)
+		stderr, code := run(order[0], order[1])
+		gotA, _ := os.ReadFile(fa)
+		gotB, _ := os.ReadFile(fb)
+		if code != 0 || string(gotA) != wantA || string(gotB) != wantB {
+			which := "second"
+			if (order[0] == fa) == (string(gotA) != wantA) {
+				which = "first"
+			}
+			c.Violation("multi-file|file-treated-differently-than-alone:"+which, fmt.Sprintf("plenctag %s %s: exit %d stderr %s\n%s alone becomes:\n%s\nin this invocation:\n%s\n%s alone becomes:\n%s\nin this invocation:\n%s",
+				filepath.Base(order[0]), filepath.Base(order[1]), code, trunc200(stderr), filepath.Base(fa), wantA, gotA, filepath.Base(fb), wantB, gotB))
+			return
+		}
+	}
+	c.Outcome("ok")
 }
